@@ -24,8 +24,8 @@ func FuzzDagPB(f *testing.F) {
 	f.Add(encodePB([]byte("hello"), true, nil))
 	f.Add(encodePB(nil, false, []mlink{l("a", 0, 1), l("b", 1, 2)}))
 	f.Add(encodePB([]byte{}, true, []mlink{l("b", 0, 1), l("a", 1, math.MaxInt64), l("", 2, 0), l("a", 3, 7)}))
-	f.Add(encodePB([]byte{8, 1}, true, []mlink{l("日本", 4, 1 << 40), l("", 5, 3), l("", 0, 4)}))
-	f.Add(encodePB(nil, false, []mlink{l("x", 0, 1 << 63)}))
+	f.Add(encodePB([]byte{8, 1}, true, []mlink{l("日本", 4, 1<<40), l("", 5, 3), l("", 0, 4)}))
+	f.Add(encodePB(nil, false, []mlink{l("x", 0, 1<<63)}))
 	f.Add(encodePB(nil, false, []mlink{l("x", 0, math.MaxUint64)}))
 	f.Add([]byte{0x0a, 0x00})                   // empty data
 	f.Add([]byte{0x12, 0x00})                   // link without hash
